@@ -33,7 +33,8 @@ if [ $APPLY = ok ]; then
   run_demo; MUT=$?
   tail -5 $OUT/.demo.log > $OUT/demo_with_patch.tail.txt
   for d in $DEMOS; do rm -f tests/$(basename $d); done
-  BASE=$(/tmp/tools/run_baseline.sh $W 2>&1 | head -1)
+  BASE=$(/tmp/tools/run_baseline.sh $W 2>&1 | grep -E "^passed|MISSING" | tr '\n' ';')
+  case "$BASE" in *"baseline_missing 0"*) ;; *) sleep 20; BASE="retry: $(/tmp/tools/run_baseline.sh $W 2>&1 | grep -E "^passed|MISSING" | tr '\n' ';') first: $BASE";; esac
 else BUILD=-1; MUT=-1; BASE="n/a"; fi
 rm -f $OUT/.demo.log
 git checkout -q -- . ; git clean -fdq -e target -e target-rel
